@@ -111,8 +111,8 @@ def check_fail(ctx, r, what, case):
         pb = "no diagnostic on stderr"
     elif r.stdout:
         pb = "wrote to stdout although it failed"
-    elif r.created or r.modified:
-        pb = "created or modified files although it failed: %s" % sorted(list(r.created) + list(r.modified))
+    elif r.created or r.modified or r.created_dirs:
+        pb = "created or modified files or directories although it failed: %s" % sorted(list(r.created) + list(r.modified) + list(r.created_dirs))
     if pb:
         ctx.violation("oracle", dict(case, run=r.describe()), "%s: %s" % (what, pb))
     return pb
@@ -185,6 +185,13 @@ def run(ctx):
                 argv = ["-p", "pkg"] + (["-o", "out/gen.go"] if mode == "file" else []) + ["in/" + x for x in seq]
                 runs.append(Run("m%d" % k, files, argv))
                 meta.append(("multi-input", "%s in %s" % (badname, seq), (), seq, mode))
+                if mode == "file" and k % 3 == 0:
+                    # the same failing run towards output paths that do not exist yet: nothing may be left behind, not even an empty file or directory
+                    k += 1
+                    files2 = {"in/good1.json": g1, "in/good2.json": g2, "in/" + badname: badtext}
+                    argv2 = ["-p", "pkg", "-o", "fresh/dir/gen.go", "--schema-output", "http://x/none=fresh2/other.go", "--schema-package", "http://x/none=example.com/none"] + ["in/" + x for x in seq]
+                    runs.append(Run("m%d" % k, files2, argv2))
+                    meta.append(("multi-input", "%s in %s, fresh output paths" % (badname, seq), (), seq, mode))
     # two inputs whose root types get the same name (same base name in two directories): the later one is still walked, its faults still fail the run
     okitem = json.dumps({"type": "object", "properties": {"a": {"type": "string"}}})
     for bi, badtext in enumerate([json.dumps({"type": "object", "definitions": {"Tag": {"type": "lenght"}}, "properties": {"b": {"type": "integer"}}}),
